@@ -19,7 +19,7 @@ def e_T%(T)d(raw: bytes, off: int, d: int, c: int) -> str:
 
 
 def build(tier, seed):
-    entries = [e for e in select(tier) if "P" not in e["tags"]]
+    entries = [e for e in select(tier) if "P" not in e["tags"] and "noaccept" not in e["tags"]]
     if tier == "quick":
         keep = {"move", "em", "ref", "seq", "opt", "tail", "bits", "size"}
         entries = [e for e in entries if e["tags"] & keep and not ("marker" in e["tags"] and "sbl" in e["tags"])]
